@@ -7,21 +7,21 @@ DEPS = ("Trusted base: rustc 1.97 nightly (type checker, const evaluator, match 
 CLAIMS = {
     "C04": {
         "level": "other",
-        "technique": "static obligation analysis over the monomorphic call graph (walked through dependency MIR): every Assert / contract-panicking call / unsafe operation in reachable /repo instances must be discharged by a typed rule; SCC no-recursion; input-consuming-loop rule; no mutable globals",
+        "technique": "static obligation analysis over the monomorphic call graph (walked through dependency MIR): every Assert / contract-panicking call / unsafe operation in reachable /repo instances must be discharged by a typed rule (C13's templates by covered span, constant arithmetic, value-range intervals derived from parameter types, concretely unrolled counting loops, constant ranges of fixed arrays); SCC no-recursion; input-consuming-loop rule; no mutable globals",
         "text": "Sound-by-construction for /repo code relative to the deny table: the exact set of /repo function instances reachable from Request::deserialize is computed (88 per configuration), all their panic-capable MIR constructs are listed (5 today, all in truncate/floor_char_boundary) "
                 "and discharged by the C13 template; any new one is reported with a call path. Recursion, non-consuming loops and mutable globals are excluded structurally. Panic-freedom/termination inside the dependencies is not decided; the property's byte enumeration is a dynamic technique and is not imitated.",
         "note": DEPS + "Conservative corner (DESIGN section 4.1): a new panic-capable construct that a human could prove safe is still reported as undischarged.",
     },
     "C19": {
         "level": "other",
-        "technique": "static obligation analysis over the monomorphic call graph from the three derived Arbitrary impls (all features + arbitrary), each unwrap / unsafe call / pointer cast / assert discharged by a typed template over HIR slots (lengths vs capacities, dataflow on the Unstructured, repr(transparent), who-may-call)",
+        "technique": "static obligation analysis over the monomorphic call graph from the three derived Arbitrary impls (all features + arbitrary), each unwrap / unsafe call / pointer cast / assert discharged by a typed template over HIR slots or a path-summary rule (lengths vs capacities on every path, value-range intervals, dataflow on the Unstructured, repr(transparent) pointer chain, who-may-call)",
         "text": "All 54 obligations in the reachable /repo instances (per monomorphic instance) are discharged by closed-form templates: array conversions of exactly the requested length, lengths clamped to the target capacity, loop maximum = vector capacity, unchecked UTF-8 on the validated prefix of the same buffer, "
                 "transparent pointer cast with an audited single caller, derive(Arbitrary)'s selector arithmetic. Validity of produced values then follows from the container type invariants. Relative to arbitrary 1.4.2's documented contracts.",
         "note": DEPS + "Trusted: arbitrary 1.4.2 (bytes(n) returns exactly n bytes, peek_bytes does not consume, arbitrary_loop honours max, derive expansion). Not decided: formatting/cloning/dispatching the value.",
     },
     "C13": {
         "level": "other",
-        "technique": "static wiring table + path summaries of the wrapper decoders + a semantic template for floor_char_boundary/truncate with slots read from the path terms and side conditions evaluated on the slot values (boundary byte set: the predicate constant-folded for each of the 256 byte values)",
+        "technique": "static wiring table + path summaries of the wrapper decoders (helpers found by role, closures evaluated in place) + semantic templates for floor_char_boundary (three accepted idioms: window + rposition, reverse find over positions, step back while !is_char_boundary) and truncate, with slots read from the path terms and side conditions evaluated on the slot values (boundary byte set: the predicate constant-folded for each of the 256 byte values); the panicking String::from(&str) is accepted only behind `len <= L` on the path",
         "text": "Decides the wiring (which member uses which lossy decoder with which capacity), the exact keep/drop condition of the icon decoder, and every structural parameter the longest-prefix argument depends on "
                 "(inclusive window of >= 4 positions ending at the cut, last match, result arithmetic, boundary byte set, truncate's own L, prefix pushed into a fresh String<L>), and that no other panic-capable construct exists in these functions. "
                 "The for-all-strings conclusion is the paper argument over these slots (DESIGN.md), not an exploration.",
@@ -29,7 +29,7 @@ CLAIMS = {
     },
     "C14": {
         "level": "other",
-        "technique": "static error-discipline / who-may-call rules on the path summaries (one symbolic loop iteration) of the two hand-written filtering visit_seq loops; decision table of the known-parameter conversion over a probe domain; constants and capacities from rustc's evaluated tables",
+        "technique": "static error-discipline / who-may-call rules on the path summaries (one symbolic loop iteration, loop-carried locals followed through the trace, generic helpers and their closure arguments expanded) of the two hand-written filtering visit_seq decoders; decision table of the known-parameter conversion over a probe domain; constants and capacities from rustc's evaluated tables",
         "text": "Decides that the only failure of either list decoder is a CBOR fault in next_element, that unknown entries continue / set the flag, that known entries are appended in input order by push with its Result discarded (first N by capacity), "
                 "that the accepted set is exactly {type == \"public-key\", alg in {-7,-8}} / {\"none\",\"packed\"}, and that the capacities equal the number of known values. This fixes the filters' input/output relation for every list.",
         "note": DEPS + "Relative to heapless Vec::push and cbor-smol's SeqAccess.",
@@ -78,7 +78,7 @@ CLAIMS = {
     },
     "C15": {
         "level": "other",
-        "technique": "static sibling-symmetry analysis between the Serialize and Deserialize tables of every bidirectional type (typed HIR), inverse string tables, discriminant tables, canonical emission order",
+        "technique": "static sibling-symmetry analysis between the Serialize and Deserialize tables of every bidirectional type (typed HIR), per-variant emission / acceptance tables of string- and integer-valued enums read from the path summaries of derived and hand-written impls alike, canonical emission order",
         "text": "Decides that both directions of all 27+ bidirectional types implement the same key<->field relation with skippable-iff-optional members, same field types and canonical emission order, and that enum tables are mutually inverse, in all 9 configurations. "
                 "Equality for every leaf value rests on the symmetry of the dependency codecs and is not decided.",
         "note": DEPS + "Not decided: value-level symmetry of leaf codecs.",
@@ -132,7 +132,7 @@ CLAIMS = {
     },
     "C18": {
         "level": "proof",
-        "technique": "static table extraction (value / variant tables from path summaries, evaluated constants, discriminants) + row-by-row comparison with an oracle table, both directions",
+        "technique": "static table extraction (value / variant tables and per-variant serde emission / acceptance tables from path summaries, evaluated constants, discriminants) + row-by-row comparison with an oracle table, both directions",
         "text": "All identifier tables are finite; each is read from the type-checked program (evaluated associated constants, enum discriminants, first-match pattern tables of the hand-written "
                 "and serde_repr-generated conversions, all 256 bytes for the TryFrom<u8> tables) and compared row by row with spec/identifiers.json in both directions, including the rejecting catch-all "
                 "that makes every other string/number invalid, in all 9 configurations.",
